@@ -61,6 +61,23 @@ fn err_kind(e: &ConfigError) -> &'static str {
     }
 }
 
+/// Odd directory entries for the path-shape cases: a regular file (so that `notes.txt/src`
+/// names nothing), a symlink loop, a dangling symlink, a symlink to a real directory.
+fn fixtures() {
+    let _ = fs::write("notes.txt", "not a directory\n");
+    let _ = std::os::unix::fs::symlink("loop", "loop");
+    let _ = std::os::unix::fs::symlink("no-such-target", "dangling");
+    let _ = fs::create_dir_all("realdir");
+    let _ = std::os::unix::fs::symlink("realdir", "linkdir");
+}
+
+fn validate_kind(cfg: &GenerateConfig) -> String {
+    match cfg.validate() {
+        Ok(()) => "ok".to_string(),
+        Err(e) => err_kind(&e).to_string(),
+    }
+}
+
 /// case: {"id", "scratch": dir, "text": file content, "cfg": {...}, "mkproj": bool}
 pub fn lib(case: &Value) -> Value {
     let base = Path::new(case["scratch"].as_str().unwrap());
@@ -69,10 +86,14 @@ pub fn lib(case: &Value) -> Value {
     std::env::set_current_dir(dir.path()).unwrap();
     let r = std::panic::catch_unwind(std::panic::AssertUnwindSafe(|| {
         let cfg = config_of(&case["cfg"]);
+        fixtures();
         let mut mk = false;
         if case["mkproj"].as_bool().unwrap_or(false) {
             mk = fs::create_dir_all(&cfg.project_path).is_ok();
         }
+        // the environment as the standard library sees it (no code of /repo involved)
+        let exists = Path::new(&cfg.project_path).exists();
+        let validate = validate_kind(&cfg);
         fs::write("tauri.conf.json", case["text"].as_str().unwrap().as_bytes()).unwrap();
         let save = match cfg.save_to_tauri_config("tauri.conf.json") {
             Ok(()) => "ok".to_string(),
@@ -84,7 +105,8 @@ pub fn lib(case: &Value) -> Value {
             Ok(None) => json!({"kind": "none"}),
             Err(e) => json!({"kind": "err", "err": err_kind(&e), "msg": e.to_string()}),
         };
-        json!({"id": case["id"], "save": save, "after_text": after, "load": load, "mkproj_done": mk})
+        json!({"id": case["id"], "save": save, "after_text": after, "load": load, "mkproj_done": mk,
+               "project_exists": exists, "validate": validate})
     }));
     std::env::set_current_dir(back).unwrap();
     match r {
@@ -111,6 +133,8 @@ pub fn flat(case: &Value) -> Value {
     std::env::set_current_dir(dir.path()).unwrap();
     let r = std::panic::catch_unwind(std::panic::AssertUnwindSafe(|| {
         let mut mk = false;
+        let mut exists = false;
+        let mut validate = String::new();
         let mut saved: Option<String> = None;
         if let Some(text) = case["text"].as_str() {
             for d in case["dirs"].as_array().map(|a| a.to_vec()).unwrap_or_default() {
@@ -119,9 +143,12 @@ pub fn flat(case: &Value) -> Value {
             fs::write("typegen.json", text.as_bytes()).unwrap();
         } else {
             let cfg = config_of(&case["cfg"]);
+            fixtures();
             if case["mkproj"].as_bool().unwrap_or(false) {
                 mk = fs::create_dir_all(&cfg.project_path).is_ok();
             }
+            exists = Path::new(&cfg.project_path).exists();
+            validate = validate_kind(&cfg);
             let s = cfg.save_to_file("typegen.json");
             saved = if s.is_ok() { fs::read_to_string("typegen.json").ok() } else { None };
         }
@@ -129,7 +156,8 @@ pub fn flat(case: &Value) -> Value {
             Ok(c) => json!({"kind": "some", "cfg": config_json(&c)}),
             Err(e) => json!({"kind": "err", "err": err_kind(&e), "msg": e.to_string()}),
         };
-        json!({"id": case["id"], "saved_text": saved, "load": load, "mkproj_done": mk})
+        json!({"id": case["id"], "saved_text": saved, "load": load, "mkproj_done": mk,
+               "project_exists": exists, "validate": validate})
     }));
     std::env::set_current_dir(back).unwrap();
     match r {
